@@ -31,6 +31,7 @@ fn ids(class: u64) -> (&'static [&'static str], &'static [&'static str]) {
         7 => (&["AAAA", "aGVsbG8", "ab-_"], &["", "a b", "\u{e9}"]),
         8 => (&["secret", "a.b=_-9"], &["", "a b", "\u{e9}"]),
         9 => (&["1", "11", "org.example.v", "x"], &["", "123456789012345678901234567890123"]),
+        11 => (&["sess.ion=_-1", "a"], &["", "a b", "\u{e9}", "a/b"]),
         10 => (&["ed25519:1", "ed25519:abc_9", "ed25519:0"], &["ed25519", "ed25519:", ":1", "ed25519:\u{e9}", "ed25519:a b"]),
         _ => (&["x"], &[""]),
     }
@@ -138,7 +139,7 @@ pub fn gen(r: &mut Rng, t: &Value, cfg: &Cfg) -> Value {
         "struct" => {
             let mut m = Map::new();
             for f in a[2].as_array().unwrap() {
-                let required = f["default"][0] == "required" && f["ty"][0] != "opt";
+                let required = f["default"][0] == "required" && f["ty"][0] != "opt" || f["default"][0] == "strict";
                 let present = required && !r.chance(cfg.bad, 300) || !required && r.chance(3, 5);
                 if !present {
                     continue;
